@@ -103,6 +103,22 @@ pub struct SimCfg {
     /// running in order on the calling task (the OS limits the number of stack mappings)
     #[serde(default = "default_spawn_budget")]
     pub spawn_budget: u64,
+    /// simulated clock: tick per scheduling decision / clock read, and injected leaps
+    #[serde(default)]
+    pub clock: ClockSpec,
+}
+
+#[derive(Clone, Debug, Serialize, Deserialize, PartialEq)]
+pub struct ClockSpec {
+    pub tick_ns: u64,
+    /// (index of the clock read, leap in nanoseconds)
+    pub jumps: Vec<(u64, u64)>,
+}
+
+impl Default for ClockSpec {
+    fn default() -> Self {
+        ClockSpec { tick_ns: 1_000, jumps: Vec::new() }
+    }
 }
 
 fn default_spawn_budget() -> u64 {
@@ -120,6 +136,7 @@ impl SimCfg {
             aux_seed: 0,
             max_steps: 2_000_000,
             spawn_budget: default_spawn_budget(),
+            clock: ClockSpec::default(),
         }
     }
 
@@ -147,6 +164,17 @@ impl SimCfg {
             aux_seed: simctx::mix(&[sched_seed, 0xA0C5]),
             max_steps,
             spawn_budget: default_spawn_budget(),
+            clock: {
+                // slow / fast clocks, and now and then a leap (a suspended VM, an NTP step on a
+                // badly chosen clock): deadlines in the code under test fire early or late
+                let tick_ns = *knobs.pick(&[100u64, 1_000, 10_000, 1_000_000]);
+                let jumps = if knobs.chance(0.1) {
+                    vec![(knobs.below(40) as u64, *knobs.pick(&[1_000_000_000u64, 60_000_000_000, 3_600_000_000_000]))]
+                } else {
+                    Vec::new()
+                };
+                ClockSpec { tick_ns, jumps }
+            },
         }
     }
 }
@@ -285,6 +313,7 @@ impl Decider {
         }
         r.diverged |= diverged;
         simctx::log(simctx::EV_SCHED, cid as u64, n as u64);
+        simctx::with(|c| c.clock_ns = c.clock_ns.saturating_add(c.clock_tick_ns));
         Some(chosen)
     }
 }
@@ -337,6 +366,8 @@ pub struct Counters {
     pub max_workers: usize,
     pub n_nested: u64,
     pub replay_diverged: bool,
+    pub n_clock_reads: u64,
+    pub n_clock_jumps_fired: u64,
 }
 
 pub struct SimOut<R> {
@@ -462,6 +493,8 @@ impl Scheduler for EngineScheduler {
         ctx.inner_full = cfg.inner_full;
         ctx.aux = Rng::new(cfg.aux_seed);
         ctx.spawn_budget = cfg.spawn_budget;
+        ctx.clock_tick_ns = cfg.clock.tick_ns;
+        ctx.clock_jumps = cfg.clock.jumps.clone();
         ctx.rng = match &cfg.rng {
             RngSpec::Stream { seed, adversarial, abs, period } => {
                 ctx.abs = abs.clone();
@@ -598,6 +631,8 @@ where
         max_workers: ctx.max_workers,
         n_nested: ctx.n_nested,
         replay_diverged: rec.diverged,
+        n_clock_reads: ctx.n_clock_reads,
+        n_clock_jumps_fired: ctx.n_clock_jumps_fired,
     };
     SimOut {
         result,
